@@ -15,8 +15,20 @@ pub fn derive(input: &Input) -> TokenStream {
     let fields_names = &input.fields.iter()
         .map(|field| field.ident.clone().unwrap())
         .collect::<Vec<_>>();
-    let first_field_name = &fields_names[0];
 
+
+    // the fields are public (and deserializable), so a slice can hold field
+    // slices of different lengths: `get`/`get_mut` check every field instead
+    // of checking the first one and using `get_unchecked` on the others
+    let get = input.map_fields_nested_or(
+        |ident, _| quote! { ::soa_derive::SoAIndex::get(self.clone(), slice.#ident)? },
+        |ident, _| quote! { slice.#ident.get(self.clone())? },
+    ).collect::<Vec<_>>();
+
+    let get_mut = input.map_fields_nested_or(
+        |ident, _| quote! { ::soa_derive::SoAIndexMut::get_mut(self.clone(), slice.#ident)? },
+        |ident, _| quote! { slice.#ident.get_mut(self.clone())? },
+    ).collect::<Vec<_>>();
 
     let get_unchecked = input.map_fields_nested_or(
         |ident, _| quote! { ::soa_derive::SoAIndex::get_unchecked(self.clone(), slice.#ident) },
@@ -45,11 +57,7 @@ pub fn derive(input: &Input) -> TokenStream {
 
             #[inline]
             fn get(self, soa: &'a #vec_name) -> Option<Self::RefOutput> {
-                if self < soa.len() {
-                    Some(unsafe { ::soa_derive::SoAIndex::get_unchecked(self, soa) })
-                } else {
-                    None
-                }
+                ::soa_derive::SoAIndex::get(self, soa.as_slice())
             }
 
             #[inline]
@@ -68,11 +76,7 @@ pub fn derive(input: &Input) -> TokenStream {
 
             #[inline]
             fn get_mut(self, soa: &'a mut #vec_name) -> Option<Self::MutOutput> {
-                if self < soa.len() {
-                    Some(unsafe { ::soa_derive::SoAIndexMut::get_unchecked_mut(self, soa) })
-                } else {
-                    None
-                }
+                ::soa_derive::SoAIndexMut::get_mut(self, soa.as_mut_slice())
             }
 
             #[inline]
@@ -94,11 +98,7 @@ pub fn derive(input: &Input) -> TokenStream {
 
             #[inline]
             fn get(self, soa: &'a #vec_name) -> Option<Self::RefOutput> {
-                if self.start <= self.end && self.end <= soa.len() {
-                    unsafe { Some(::soa_derive::SoAIndex::get_unchecked(self, soa)) }
-                } else {
-                    None
-                }
+                ::soa_derive::SoAIndex::get(self, soa.as_slice())
             }
 
             #[inline]
@@ -117,11 +117,7 @@ pub fn derive(input: &Input) -> TokenStream {
 
             #[inline]
             fn get_mut(self, soa: &'a mut #vec_name) -> Option<Self::MutOutput> {
-                if self.start <= self.end && self.end <= soa.len() {
-                    unsafe { Some(::soa_derive::SoAIndexMut::get_unchecked_mut(self, soa)) }
-                } else {
-                    None
-                }
+                ::soa_derive::SoAIndexMut::get_mut(self, soa.as_mut_slice())
             }
 
             #[inline]
@@ -350,11 +346,9 @@ pub fn derive(input: &Input) -> TokenStream {
 
             #[inline]
             fn get(self, slice: #slice_name<'a>) -> Option<Self::RefOutput> {
-                if self < slice.#first_field_name.len() {
-                    Some(unsafe { ::soa_derive::SoAIndex::get_unchecked(self, slice) })
-                } else {
-                    None
-                }
+                Some(#ref_name {
+                    #( #fields_names: #get, )*
+                })
             }
 
             #[inline]
@@ -377,11 +371,9 @@ pub fn derive(input: &Input) -> TokenStream {
 
             #[inline]
             fn get_mut(self, slice: #slice_mut_name<'a>) -> Option<Self::MutOutput> {
-                if self < slice.len() {
-                    Some(unsafe { ::soa_derive::SoAIndexMut::get_unchecked_mut(self, slice) })
-                } else {
-                    None
-                }
+                Some(#ref_mut_name {
+                    #( #fields_names: #get_mut, )*
+                })
             }
 
             #[inline]
@@ -407,11 +399,9 @@ pub fn derive(input: &Input) -> TokenStream {
 
             #[inline]
             fn get(self, slice: #slice_name<'a>) -> Option<Self::RefOutput> {
-                if self.start <= self.end && self.end <= slice.#first_field_name.len() {
-                    unsafe { Some(::soa_derive::SoAIndex::get_unchecked(self, slice)) }
-                } else {
-                    None
-                }
+                Some(#slice_name {
+                    #( #fields_names: #get, )*
+                })
             }
 
             #[inline]
@@ -434,11 +424,9 @@ pub fn derive(input: &Input) -> TokenStream {
 
             #[inline]
             fn get_mut(self, slice: #slice_mut_name<'a>) -> Option<Self::MutOutput> {
-                if self.start <= self.end && self.end <= slice.#first_field_name.len() {
-                    unsafe { Some(::soa_derive::SoAIndexMut::get_unchecked_mut(self, slice)) }
-                } else {
-                    None
-                }
+                Some(#slice_mut_name {
+                    #( #fields_names: #get_mut, )*
+                })
             }
 
             #[inline]
